@@ -46,9 +46,14 @@ func tinyGolden() *epb.VMGoldenMeasurement {
 }
 
 // CheckHealth runs the probe at simulated time now.
-func (a *Authority) CheckHealth(now time.Time) *Health {
+func (a *Authority) CheckHealth(now time.Time) *Health { return a.checkHealth(now, false) }
+
+// CheckDurableHealth runs the probe through freshly created component objects (a new process).
+func (a *Authority) CheckDurableHealth(now time.Time) *Health { return a.checkHealth(now, true) }
+
+func (a *Authority) checkHealth(now time.Time, fresh bool) *Health {
 	h := &Health{}
-	v, err := a.View()
+	v, err := a.view(fresh)
 	if err != nil {
 		h.PrimaryErr = err
 		return h
